@@ -167,6 +167,11 @@ func (c *Ctx) convert(v Value, T types.Type, e *ast.CallExpr) Value {
 						}
 					}
 					if needs {
+						if lo2, hi2, ok2 := intRange(T); ok2 {
+							if bl, bh, known := x.bounds(v.S, 0); known && bl.Cmp(lo2) >= 0 && bh.Cmp(hi2) <= 0 {
+								return Scalar(v.S, T) // the value cannot leave the target range
+							}
+						}
 						c.oblige("conv", exprText(e), inRange(v.S, T), e.Pos())
 						// integer conversions truncate: model the value faithfully
 						return Scalar(Ite(inRange(v.S, T), v.S, wrapTo(v.S, T)), T)
@@ -382,6 +387,11 @@ func (c *Ctx) atCall(e *ast.CallExpr, args []Value) {
 		if n := typeName(pointee(c.typeOf(e.Args[0]))); n != "" {
 			if cs := c.fr.fi.Spec.AtCall[exprText(e.Fun)+"<"+n+">"]; cs != nil {
 				specs = append(specs, cs)
+			}
+			if se, ok := unparen(e.Fun).(*ast.SelectorExpr); ok {
+				if cs := c.fr.fi.Spec.AtCall["*."+se.Sel.Name+"<"+n+">"]; cs != nil {
+					specs = append(specs, cs)
+				}
 			}
 		}
 	}
